@@ -38,15 +38,19 @@ func main() {
 		"{ok, error, ErrNotFound ignored/not ignored, panic string/error/value/runtime}, panics in Plan()/NextStages()) x (schedule: in serial mode every " +
 		"stage parks at a gate and the driver opens one gate at a time – every order for small trees (depth-first over the decision points), " +
 		"seeded random orders for large ones; in free mode seeded micro delays on bounded pools; one tree in eight is also run with the pooled stages' " +
-		"context cancelled in mid-flight, one in 25 is a wide tree of 10-23 pooled children). Non-trivial = at least two stages were registered " +
+		"context cancelled in mid-flight, one in 25 is a wide tree of 10-23 pooled children). Stages whose Plan() returns nil (nothing to execute) are " +
+		"enumerated at every position of every tree of up to 3 stages (a seeded sample of the 4-stage trees in the quick tier) next to ok/failing/panicking stages, " +
+		"and generated as families: a nil-plan stage (leaf or with next stages, inline or pooled, first/last/middle) among 2-5 slower, failing or panicking siblings. " +
+		"A stage object built again (NextStages() of its parent called twice) is a separate instance sN#k with its own gate and facts. Non-trivial = at least two stages were registered " +
 		"with the pipeline; distinct = (canonical tree, observed completion order incl. callback position). " +
 		"requesting side: a case = (root | intermediate, 2-5 targets, response of every target {ok (a real leaf payload), real error, not found}, " +
 		"order and arrival point of the responses - while a later request is being sent or while the caller waits -, duplicates, late copies, send failures); " +
 		"the first 324 cases enumerate 3 targets x every assignment x every order x {during the last send, after the sends}. leaf workload: a case = (query shape, per-shard fault {none, too many series (real operator error), injected error/panic at Filter, Load, GetDataFamilies}, " +
-		"order in which the shards' stages are released); distinct = (query shape, fault assignment, release order)")
+		"order in which the shards' stages are released; one request in three also targets one or two shards that have no data family in the query range - " +
+		"their scan stage has no plan - first, last or between the others); distinct = (query shape, fault assignment, release order)")
 	c.Assume("the harness stage wrapper only records calls and delegates to stage.VerifStage (which embeds the real baseStage); " +
 		"operators, Plan(), NextStages() and Complete() are harness code, everything between them (pipeline, state machine, baseStage.Execute/execute, concurrent.Pool) is lindb's")
-	c.Assume("a pool is idle when its own consumed/panic/rejected counters equal the number of tasks the harness saw handed to it " +
+	c.Assume("a pool is idle when its own consumed/panic/rejected counters equal the number of Submit calls a delegating wrapper counted " +
 		"and (tree workload) Pool.Stop() has returned; no verdict depends on elapsed time, stalled cases end as inconclusive")
 	c.Assume("stages running on a pool only submit to pools of deeper levels (as lindb's Filtering -> Grouping -> Scanner), so bounded pools cannot self-deadlock")
 
@@ -55,6 +59,8 @@ func main() {
 	plan := newTreePlan(c.Seed, quick)
 	c.Set("tree_items", plan.items())
 	c.Set("systematic_trees", len(plan.sys))
+	c.Set("systematic_trees_with_nil_plan_stage", len(plan.nilSys))
+	c.Set("random_families_around_nil_plan_stage", plan.nNil)
 
 	type job struct {
 		name string
@@ -239,7 +245,12 @@ func main() {
 	// the run must have observed what the oracle relies on
 	need := []string{"runs_serial", "runs_free", "callback", "failure_not_last_to_finish", "failure_last_to_finish",
 		"callback_after_panic", "callback_after_all_finished", "decision_points_with_alternatives",
+		"nil_plan_stages_completed", "nil_plan_stage_pooled", "nil_plan_stage_inline", "nil_plan_stage_inner_node", "nil_plan_stage_leaf",
+		"nil_plan_stage_root", "nil_plan_stage_first_sibling", "nil_plan_stage_last_sibling", "nil_plan_stage_middle_sibling",
+		"nil_plan_stage_completed_while_non_ancestor_stage_unfinished", "nil_plan_stage_completed_before_another_stage_failed",
 		"leaf_requests", "leaf_requests_with_failing_shard", "leaf_responses",
+		"leaf_requests_with_shard_without_family_in_range", "leaf_requests_with_failing_shard_and_shard_without_family",
+		"leaf_shard_without_family_planned_while_other_shards_parked",
 		"requester_cases_root", "requester_cases_intermediate", "requester_cases_with_failing_target", "requester_not_found_handled_after_error",
 		"requester_success_answers"}
 	for _, k := range need {
